@@ -54,6 +54,29 @@ def gen_case(rng):
     return dict(rows=rows, base_ts=base_ts, dims=dd, mets=[("sum", "v"), ("count", None)], filt=rng.random() < 0.3)
 
 
+def gen_straddle(rng):
+    """targeted family: ONE time dimension requested at week AND at month / quarter / year, rows on both sides of a month (quarter, year) boundary that
+    lies inside one ISO week: every (week, month) pair is its own group"""
+    from harness.calpy import dfc
+    pairs = [((2024, 1, 29), (2024, 2, 1)), ((2024, 2, 29), (2024, 3, 1)), ((2024, 12, 30), (2025, 1, 1)), ((2023, 2, 28), (2023, 3, 1)), ((2024, 9, 30), (2024, 10, 2)),
+             ((2025, 3, 31), (2025, 4, 1)), ((2024, 7, 29), (2024, 8, 1))]
+    rows, i = [], 0
+    for (a, b) in rng.sample(pairs, rng.randint(1, 3)):
+        for (y, m, d) in (a, b, a if rng.random() < 0.5 else b):
+            i += 1
+            rows.append((i, dfc(y, m, d) * UD + rng.choice([0, UH * 9, UD - 1]), rng.choice([None, "a", "b", "a"]), rng.choice([None, 1, 5, -2, 7])))
+    col = rng.choice(["ts", "ts", "dd"])
+    grans = ["week", rng.choice(["month", "month", "quarter", "year"])] + ([rng.choice(["day", "year"])] if rng.random() < 0.3 else [])
+    rng.shuffle(grans)
+    dims = []
+    for g in grans:
+        if (col, g) not in dims:
+            dims.append((col, g))
+    if rng.random() < 0.3:
+        dims.append(("cat", None))
+    return dict(rows=rows, base_ts=rng.choice(["hour", "day", "week", "month"]), dims=dims, mets=[("sum", "v"), ("count", None)], filt=False)
+
+
 def real(case):
     from sidemantic import Dimension, Metric, Model
     L = dbutil.fresh_layer()
@@ -90,7 +113,7 @@ def coq_term(case):
 
 
 def e2e(c, n):
-    cases = [gen_case(c.rng) for _ in range(n)]
+    cases = [gen_case(c.rng) for _ in range(n)] + [gen_straddle(c.rng) for _ in range(max(10, n // 6))]
     outs = None
     if lib.coq_make(["Model/Single.vo"])[0]:
         try:
